@@ -184,8 +184,9 @@ class Model(object):
                 # (smaller) set = the ray sampled as a long segment
                 S.lo[sl] = np.minimum(0.0, 1e6 * x)
                 S.hi[sl] = np.maximum(0.0, 1e6 * x)
-                S.ray = getattr(S, 'ray', []) + [(np.arange(off, off + n),
-                                                   x / max(nrm, 1e-300))]
+                S.ray = getattr(S, 'ray', []) + [(
+                    np.arange(off, off + n),
+                    x / max(np.linalg.norm(x), 1e-300))]   # Euclidean unit
             # inside: {0}
         elif fam == 'huber':
             gam = self.cfg.get('gamma', 0.5)
